@@ -295,6 +295,28 @@ func generate() {
 		do(withBMs(baseReq(sysop, 1, "Alpha"), "ab/cd/ef/gh/ij").line())
 		do(baseReq(sysop, 1, "b2").line())
 	}
+	// ---- E5b: ptttype.NewBM on its own (bbs.CreateBoard hands it client-supplied ids) ---------------
+	for _, l := range [][]string{{}, {"ab"}, {"ab", "cd"}, {"Moderator001", "Moderator002", "Moderator003"},
+		{"Moderator001", "Moderator002", "Moderator003", "Moderator004"}, {"Moderator001", "Moderator002", "Moderator00", "x"},
+		{"Moderator001", "Moderator002", "Moderator0", "xy"}, {"abcdefghijklm", "abcdefghijklm", "abcdefghijklm"},
+		{"", "", ""}, {"ab", "", "cd"}, {"a\x00b", "cd"},
+		{"ab", "cd", "ef", "gh", "ij", "ab", "cd", "ef", "gh", "ij", "ab", "cd", "ef"},
+		{"ab", "cd", "ef", "gh", "ij", "ab", "cd", "ef", "gh", "ij", "ab", "cd", "xyz"},
+		{"ab", "cd", "ef", "gh", "ij", "ab", "cd", "ef", "gh", "ij", "ab", "cd", "ef", "gh", "ij", "kl"}} {
+		ids := make([][]byte, len(l))
+		for k, x := range l {
+			ids[k] = []byte(x)
+		}
+		do("newbm " + csvBytes(ids))
+	}
+	for k := 0; k < 40; k++ {
+		n := r.Intn(8)
+		ids := make([][]byte, n)
+		for j := range ids {
+			ids[j] = r.Bytes([]int{0, 1, 2, 5, 12, 13}[r.Intn(6)], []byte("abcXYZ09\x00"))
+		}
+		do("newbm " + csvBytes(ids))
+	}
 	// ---- E6: class and title lengths ----------------------------------------------------------------
 	for _, cl := range [][]byte{{}, []byte("ab"), []byte("CLS "), []byte("abcdefg"), []byte("a\x00b")} {
 		for _, tl := range []int{0, 5, 41, 42, 43, 60} {
@@ -403,7 +425,7 @@ func generate() {
 		"create 5359534f50 16384 1 1 416c706861 434c5320 74 nil 0 0 0 2",
 		"create 5359534f50 16384 1 2147483648 416c706861 434c5320 74 nil 0 0 0 0",
 		"reset zz - - - 1 0 0", "reset - - - - 1 256 0", "reset - - - - 1 0 1 c:41:-:-:0:0:0", "reset - - - - 1 0 1 x:41:-:-:0:0:0:0",
-		"layout now",
+		"layout now", "newbm", "newbm zz", "newbm 6162 6364",
 	} {
 		do(l)
 	}
